@@ -146,6 +146,11 @@ func vfC04Timing(e *vfEnv, r *vfResult, idx int) { //nolint:cyclop
 		r.eval(1)
 		if wLo != wHi {
 			r.inconclusive(1) // the tick straddled a threshold: not judged
+			prev = sn.State   // but the state it produced is the previous state of the next sample
+			if prev == ConnectionStateFailed {
+				break
+			}
+			s.dropAll()
 
 			continue
 		}
